@@ -20,4 +20,6 @@ def run(rep, fb, tier):
     _pr2.rule_py_call_signature(rep)
     from ..rules import pyrules as _pr4
     _pr4.rule_py_defassign(rep)
+    from ..rules import pybind as _pb2
+    _pb2.rule_py_layout_attrs(rep)
     rep.units = fb.units + ["src/awkward/_connect/_numba/*.py, _libawkward.py (ast)"]
